@@ -85,6 +85,11 @@ func (ie *ImageExtractor) Extract(node *html.Node) webdoc.Element {
 		}
 
 		figCaption := domutil.GetFirstElementByTagName(node, "figcaption")
+		if figCaption != nil && !ie.isVisibleInside(figCaption, node) {
+			// A caption that is hidden, or sits in a hidden part of the figure, is no caption.
+			figCaption = nil
+		}
+
 		if figCaption == nil {
 			figCaption = ie.createFigCaption(node)
 		} else {
@@ -299,6 +304,16 @@ func (ie *ImageExtractor) imageSrcIsValid(src string) bool {
 		return false
 	}
 
+	return true
+}
+
+// isVisibleInside reports whether node and all its ancestors below root are visible.
+func (ie *ImageExtractor) isVisibleInside(node, root *html.Node) bool {
+	for current := node; current != nil && current != root; current = current.Parent {
+		if !domutil.IsProbablyVisible(current) {
+			return false
+		}
+	}
 	return true
 }
 
